@@ -66,7 +66,7 @@ Emit == PrintT(<<"G", Len(entries), ToJson([entries |-> entries, dialect |-> Dia
 (* ----------------------------- universes -------------------------------- *)
 KeysGraph == {"", "q", "w", "foo"}
 KeysAtom  == {"", "w", "x", "foo"}
-ValsQ == {"1", "+1", "-0.25", "1e-1", "abc", "R"}
+ValsQ == {"1", "+1", "-0.25", "1e-1", "0", "abc", "R"}
 ValsT == {"1", "+1", "-0.25", "1e-1", ".5", "0", "abc", "R", "S", "2.5e-1"}
 Faults == {[k |-> "w", v |-> "ab=c", eq |-> 2], [k |-> "foo", v |-> "a=b", eq |-> 2]}
 =============================================================================
